@@ -64,13 +64,22 @@ CHECKS = {
     "C04": dict(
         technique="TLA+ specs Values.tla + ValueAlgebra.tla + Assign.tla; TLC proves soundness w.r.t. Member, reflexivity, Never/object "
         "laws, union laws, Any laws and exclude-any monotonicity on every pair of type terms; every pair is replayed through "
-        "the real Value.can_assign (plain and under set_exclude_any) and adjudicated by TLC (AssignTrace.tla)",
+        "the real Value.can_assign (plain and under set_exclude_any) and adjudicated by TLC (AssignTrace.tla); Protocols.tla + "
+        "ProtocolsTrace.tla model the run-time protocol check as the state machine it is (member collection over the MRO, "
+        "per-member lookup and comparison, recursion guard, positive cache as state) on 18 real protocols x 49 candidate classes "
+        "whose table is compared with the real classes and CPython's __protocol_attrs__; membership = greatest fixed point of "
+        "PEP 544 conformance validated against CPython; every pair replayed in two histories through new Checkers, through the "
+        "visitor and through the cache machine",
         text="Model checking: all ~108k ordered pairs of depth-1 terms (quick) / depth-2 (thorough) on the model; exhaustive "
         "replay of the same pairs into the real code (drift = 0 means the transcription is exact on the space), plus TLC "
-        "simulation of deeper terms. Documented leniencies are named predicates; the enum-metaclass protocol hole is a named "
-        "known deviation.",
+        "simulation of deeper terms. Run-time protocols: all pairs of a 28 x 144 sub-universe, 2-step (quick) / 3-step "
+        "(thorough) cache histories exhaustive over the recursive family, Sound / Refl / union laws / history independence. "
+        "Documented leniencies are named predicates; the enum-metaclass protocol hole and six protocol deviations (poisoned "
+        "positive cache, five Any / rescue leniencies) are named known deviations, excused only where the model reproduces the "
+        "real verdict.",
         design="2/C04",
-        note=TRUSTED + " Leniencies excluded from Sound are listed in DESIGN.md (bare generics, fixed<-variadic tuple, NewType<-supertype).",
+        note=TRUSTED + " Leniencies excluded from Sound are listed in DESIGN.md (bare generics, fixed<-variadic tuple, NewType<-supertype); class objects (type[K], KnownValue(K)) against protocols and the "
+        "permissive __hash__ rule are outside the protocol slice.",
     ),
     "C05": dict(
         technique="TLA+ state machine Binder.tla (preprocess_args + Signature.bind_arguments, one action per branch) checked by TLC "
@@ -222,14 +231,21 @@ CHECKS = {
         "simulated expression and def header realised as source and pushed through the real routes (type_from_runtime on "
         "eval(E) and on 'E', reveal_type of a parameter, get_argspec from plain and PEP 563 modules, nested-def signature, each "
         "call in three contexts); observations adjudicated by TLC (AnnotationsTrace.tla / DefHeadersTrace.tla), which first "
-        "validate the CPython models against real eval() / inspect.signature",
+        "validate the CPython models against real eval() / inspect.signature; AnnotationContext.tla / AnnotationContextTrace.tla "
+        "(a two-module world with same-named classes, 17 spellings of a forward reference, typing's subscription memo really "
+        "shared, histories of typing.get_type_hints / pyanalyze routes; model of typing's sharing validated against the real "
+        "ForwardRef objects) and DefShapes.tla / DefShapesTrace.tla (methods via class / instance, functools.wraps wrappers, "
+        "decorators with a declared Callable return, sync / async generators, non-literal defaults)",
         text="Model checking: TLC proves the three evaluators mean the same type for every expression of <=3 (quick) / <=4 "
         "(thorough, 1.8M states) forms over 32 leaf / 22 unary / 7 binary forms, and that def-derived and runtime-derived "
         "signatures agree for every header of <=2 / <=3 parameters over all five kinds, defaults, annotations, async and PEP "
         "563, outside two named deviation classes (three more were repaired); simulation to 7 forms / 4 parameters. The real "
-        "code is bound to the model by replay (drift 0) and every real result is judged by TLC.",
+        "code is bound to the model by replay (drift 0) and every real result is judged by TLC. The denotation of a forward "
+        "reference is proved and replayed to be independent of evaluation history and of typing's shared ForwardRef objects "
+        "(histories <=2, 20k states quick / 387k thorough, 1.7k cases replayed in quick); shapes of definition model checked "
+        "(3.7k / 112k states) and replayed.",
         design="2/C13",
-        note=TRUSTED + " RefSame / RefSameSig define 'up to representation'; typing's caches are cleared per case; return types of "
+        note=TRUSTED + " RefSame / RefSameSig define 'up to representation'; typing's caches are cleared per case for Annotations / DefHeaders and really shared inside a case for AnnotationContext; return types of "
         "calls compared only when declared; vocabulary = prelude of c13.py; Python 3.12.1.",
     ),
     "C14": dict(
@@ -277,16 +293,22 @@ CHECKS = {
         "independent model of CPython 3.12's %-formatter and str.format incl. the format-spec mini-language), exhaustive TLC + "
         "simulation; every enumerated case realised as an expression, checked by the real visitor and really evaluated by "
         "CPython; observations adjudicated by TLC (PercentFormatTrace / StrFormatTrace), which first validates the CPython "
-        "model against the real outcome",
+        "model against the real outcome; PercentFields.tla / StrFields.tla are specifier- / field-structured generators extending "
+        "the two specs (same operators, invariants and trace specs): templates built from items whose fields are enumerated, "
+        "arguments drawn around the arity the template asks for",
         text="Model checking: TLC proves 'CPython raises => reported', 'CPython succeeds => nothing reported outside the "
         "documented lints' and 'inferred type = result type' for every %-template of <=3 (quick) / <=4 (thorough) tokens x "
         "literal scalar/tuple/dict arguments x str/bytes, and every str.format template of <=4 / <=5 tokens x positional/"
-        "keyword arguments, outside 14 named deviation classes (known_findings.jsonl). The real code is bound by replaying the "
+        "keyword arguments; and, by the structured generators, every 1-item template over the complete field menus (3 keys x 16 "
+        "flag sets x 3 widths x 4 precisions x 4 length modifiers x 19 conversions; 5 names x 10 accessor chains x 5 conversions "
+        "x 11 specs) and 2-item templates over reduced menus x arguments of arity required-1 / 0 / +1 (quick: 25k cases all "
+        "replayed; thorough 1e7 states), outside 15 named deviation classes (known_findings.jsonl). The real code is bound by replaying the "
         "enumerated cases with TLC judging each real report against the real CPython outcome; drift 0.",
         design="2/C17",
         note=TRUSTED + " CPython 3.12.1 is the oracle (its TLA+ model is re-validated on every observation). Acceptance and result "
         "type only, not rendered text. -coverage is unusable on these specs (OOM); vacuity is controlled by observation "
-        "classes, strict and seeded-bug configs.",
+        "classes, strict and seeded-bug configs. A deviation class excuses an observation only if the Impl model reproduces the "
+        "real report.",
     ),
     "C18": dict(
         technique="TLA+ spec Config.tla (options.py transcription vs documented precedence) checked exhaustively by TLC; "
